@@ -423,6 +423,9 @@ def check(repo, rep, tier):
     rule_boolean(repo, r2)
     r3 = rep.rule("R-C02-3", "gadget obligations", floor=20)
     rule_gadgets(repo, r3)
+    r4 = rep.rule("R-C02-4", "constraints are not emitted under a stale guard: guard state is restored on every exit (shared with C08)", floor=10)
+    from .c08 import guard_discipline
+    guard_discipline(repo, r4)
     # shared instances
     from .c16 import rule_decomposition
     from .c15 import check_selector, secret_arm
